@@ -7,6 +7,9 @@ Module A := PropAbs.
 Module AP := PropAbsProofs.
 Module L := PropAbsLazy.
 
+Lemma flat_map_ext_in' {X Y} (f g : X -> list Y) (l : list X) : (forall x, In x l -> f x = g x) -> flat_map f l = flat_map g l.
+Proof. induction l as [|a r IH]; cbn; intros H; [reflexivity|]. rewrite (H a (or_introl eq_refl)), IH; [reflexivity|]. intros x Hx. apply H. right. exact Hx. Qed.
+
 Section GrowLazy.
   Variable fn : nat -> list Z -> option Z.
   Variable rtl : bool.
@@ -217,12 +220,55 @@ Section GrowLazy.
     split; [exact A1|apply LSND_of_LCOH; exact A2].
   Qed.
 
+  (* ---- the registry of the evaluator: in a growing network registration order is dependency order ---- *)
+  Definition LREG (w : world) : Prop :=
+    match nth_error (w_evps w) ev with
+    | None => True
+    | Some st =>
+        NoDup (regs_of w (ep_registry st)) /\ lchain w (regs_of w (ep_registry st)) /\
+        (forall rb, In rb (ep_registry st) -> snd rb < length (w_binds w)) /\
+        (forall q, In q (regs_of w (ep_registry st)) -> lookup (w_props w) q <> None)
+    end.
+
+  (* what LREG looks at *)
+  Definition REQ (w w' : world) : Prop :=
+    w_evps w' = w_evps w /\ length (w_binds w') = length (w_binds w) /\ (forall b, lz w' b = lz w b) /\
+    (forall q x', lz_of w' q = Some x' -> exists x, lz_of w q = Some x /\ leaves (b_root x') = leaves (b_root x)) /\
+    (forall q, lookup (w_props w) q <> None -> lookup (w_props w') q <> None).
+
+  Lemma lchain_REQ w w' : REQ w w' -> forall regs, lchain w regs -> lchain w' regs.
+  Proof.
+    intros (_ & _ & _ & R4 & _). induction regs as [|q r IH]; cbn [lchain]; [auto|]. intros [HA HC]. split; [|auto].
+    intros x' lf p Hx' Hi Ht. destruct (R4 _ _ Hx') as (x & Hx & El). rewrite El in Hi. eauto.
+  Qed.
+  Lemma LREG_REQ w w' : REQ w w' -> LREG w -> LREG w'.
+  Proof.
+    intros R H. pose proof R as (R1 & R2 & R3 & R4 & R5). unfold LREG in *. rewrite R1. destruct (nth_error (w_evps w) ev) as [st|]; [|exact I].
+    destruct H as (ND & HC & HB & HE).
+    assert (Er : regs_of w' (ep_registry st) = regs_of w (ep_registry st)) by (unfold regs_of; apply flat_map_ext; intros rb; rewrite R3; reflexivity).
+    rewrite Er. split; [exact ND|]. split; [apply (lchain_REQ w w' R); exact HC|]. split; [intros rb Hi; rewrite R2; auto|auto].
+  Qed.
+
+  Lemma REQ_LFR w w' : LFR w w' -> (forall q, lookup (w_props w) q <> None -> lookup (w_props w') q <> None) -> REQ w w'.
+  Proof.
+    intros (F1' & F2' & F3' & F4' & _ & _ & _ & F8 & F9 & _ & _) HP. split; [exact F9|]. split; [exact F8|]. split; [exact F1'|]. split; [|exact HP].
+    intros q x' Hx'. rewrite lz_of_pview in Hx'. rewrite lz_of_pview. rewrite F3' in Hx'. destruct (pview w q) as [v|]; [|discriminate Hx'].
+    destruct (ps_updater v) as [b|]; [|discriminate Hx']. pose proof (F4' b) as E. unfold bview in E. rewrite Hx' in E.
+    destruct (get_bind w b) as [x|]; [|discriminate E]. exists x. split; [reflexivity|]. congruence.
+  Qed.
+
+  Lemma LFR_props_dom w w' : LFR w w' -> forall q, lookup (w_props w) q <> None -> lookup (w_props w') q <> None.
+  Proof.
+    intros (_ & _ & F3' & _) q Hq. pose proof (F3' q) as E. unfold pview in E. destruct (lookup (w_props w') q); [discriminate|].
+    destruct (lookup (w_props w) q); [discriminate E|contradiction].
+  Qed.
+
   (* p = makeBoundProperty(evaluator, expression): a fresh property bound through the evaluator *)
   Lemma grow_bind_lazy fuel w p e e0 w' :
-    LSC w -> LSND w -> lookup (w_props w) p = None -> lookup (w_bevs w) e0 = Some ev ->
-    step1 fn rtl fuel w (PBind p e (MEvaluator e0)) = (w', None) -> LSC w' /\ LSND w'.
+    LSC w -> LSND w -> LREG w -> lookup (w_props w) p = None -> lookup (w_bevs w) e0 = Some ev ->
+    step1 fn rtl fuel w (PBind p e (MEvaluator e0)) = (w', None) -> LSC w' /\ LSND w' /\ LREG w'.
   Proof.
-    intros HSC HS Hp He0 H. pose proof HSC as (Hinv & Hna & Hsi & Hal). cbn [step1] in H.
+    intros HSC HS HREG Hp He0 H. pose proof HSC as (Hinv & Hna & Hsi & Hal). cbn [step1] in H.
     destruct (make_binding fn rtl w e (MEvaluator e0)) as [[w3 b]|ex] eqn:Hm; [|discriminate H].
     destruct (make_binding_pinv _ _ _ _ _ _ _ Hinv Hm) as (Hinv3 & _ & Hheld3).
     (* open the constructor of the binding *)
@@ -332,9 +378,51 @@ Section GrowLazy.
       - intros q. cbn [L.ltr]. unfold A.set_tr. rewrite IO7. destruct (Nat.eqb_spec q p) as [->|]; [|apply Rn2]. cbn [bind_with_root b_root]. symmetry. exact Et.
       - intros q T0 HT0. cbn [L.ltr L.lenv] in *. unfold A.set_tr in HT0. destruct (Nat.eqb_spec q p) as [->|]; [|eauto].
         inversion HT0; subst T0. apply (consis_clean_sound (L.lenv sn) p T HC HN). }
+    (* the registry: one more entry at the end, for the fresh property *)
+    assert (REG7 : LREG w7).
+    { unfold LREG in HREG |- *. rewrite Hst in HREG. destruct HREG as (ND & HCr & HB & HE).
+      assert (Hev7 : nth_error (w_evps w7) ev = Some {| ep_registry := ep_registry st ++ [(S (ep_next st), b0)]; ep_next := S (ep_next st) |}).
+      { destruct (LFR_log_fns lg (put_bind w6 b0 (bind_with_root xb3 t))) as (_ & _ & _ & _ & _ & _ & _ & _ & E9 & _). fold w7 in E9. rewrite E9.
+        change (w_evps (put_bind w6 b0 (bind_with_root xb3 t))) with (w_evps w3). unfold w3; cbn [set_binds set_evps w_evps]. rewrite B2.
+        apply nth_upd_same. apply nth_error_Some. congruence. }
+      rewrite Hev7. cbn [ep_registry].
+      assert (Lz7 : forall b', b' < b0 -> lz w7 b' = lz w b').
+      { intros b' Hlt'. unfold lz. rewrite G7. destruct (Nat.eqb_spec b0 b'); [lia|]. change (get_bind wn b') with (get_bind w3 b'). rewrite (Gb b' Hlt'). reflexivity. }
+      assert (Er : regs_of w7 (ep_registry st) = regs_of w (ep_registry st)).
+      { unfold regs_of. apply flat_map_ext_in'. intros rb Hi. rewrite (Lz7 _ (HB rb Hi)). reflexivity. }
+      assert (Erp : regs_of w7 (ep_registry st ++ [(S (ep_next st), b0)]) = regs_of w (ep_registry st) ++ [p]).
+      { unfold regs_of at 1. rewrite flat_map_app. fold (regs_of w7 (ep_registry st)). rewrite Er. f_equal. cbn [flat_map snd]. unfold lz. rewrite G7, Nat.eqb_refl. reflexivity. }
+      rewrite Erp.
+      assert (Hpn7 : forall q, In q (regs_of w (ep_registry st)) -> q <> p) by (intros q Hq ->; exact (HE p Hq Hp)).
+      assert (IOq : forall q, q <> p -> lz_of w7 q = lz_of w q).
+      { intros q Hne. rewrite IO7. destruct (Nat.eqb_spec q p); [contradiction|]. unfold lz_of, wn; cbn [set_props w_props]. rewrite lookup_bind_other by exact Hne.
+        change (lz_of w3 q = lz_of w q). apply IO3. }
+      assert (Leafx : forall q x lf p', lz_of w q = Some x -> In lf (leaves (b_root x)) -> lf_tg lf = Some p' -> p' <> p).
+      { intros q x lf p' Hx Hi Ht ->. destruct (lz_of_bind _ _ _ Hx) as (b' & pr' & _ & _ & Hb').
+        destruct (leaf_target_exists w b' x lf p Hinv Hb' Hi Ht) as (pr0 & Hp0 & _). congruence. }
+      split; [|split; [|split]].
+      - apply NoDup_snoc; [exact ND|]. intros Hi. exact (Hpn7 p Hi eq_refl).
+      - (* dependency order *)
+        assert (App : forall regs, (forall q, In q regs -> q <> p) -> lchain w regs -> lchain w7 (regs ++ [p])).
+        { induction regs as [|q r IHr]; cbn [lchain app]; intros Hne HCr'.
+          - split; [|exact I]. intros x lf p' Hx Hi Ht [<-|[]]. rewrite IO7, Nat.eqb_refl in Hx. inversion Hx; subst x. cbn [bind_with_root b_root] in Hi. rewrite Hl in Hi.
+            assert (Hlf : has_leaf w3 b0 lf) by (exists (leaves root), None; split; [unfold bview; rewrite Gn; reflexivity|exact Hi]).
+            apply (pi_leafx _ _ _ _ _ _ _ Hinv3 _ _ _ Hlf Ht). unfold pview. rewrite Hp3. reflexivity.
+          - destruct HCr' as [HA HCr']. split; [|apply IHr; [intros q' Hq'; apply Hne; right; exact Hq'|exact HCr']].
+            intros x lf p' Hx Hi Ht. rewrite (IOq q (Hne q (or_introl eq_refl))) in Hx. rewrite app_comm_cons, in_app_iff. intros [Hin|[E|[]]].
+            + exact (HA x lf p' Hx Hi Ht Hin).
+            + exact (Leafx q x lf p' Hx Hi Ht (eq_sym E)). }
+        apply App; [exact Hpn7|exact HCr].
+      - intros rb Hi. apply in_app_iff in Hi. replace (length (w_binds w7)) with (S b0).
+        + destruct Hi as [Hi|[<-|[]]]; [specialize (HB rb Hi); unfold b0 in *; lia|cbn; lia].
+        + destruct V67 as (_ & _ & _ & _ & _ & _ & Ln). rewrite Ln. unfold w6, put_bind; cbn [set_binds w_binds]. rewrite upd_length.
+          change (w_binds w5) with (w_binds w3). unfold w3; cbn [set_binds set_evps w_binds]. rewrite app_length, B1. cbn. unfold b0. lia.
+      - intros q Hi. rewrite L7. destruct (Nat.eqb_spec q p); [discriminate|]. apply in_app_iff in Hi. destruct Hi as [Hi|[<-|[]]]; [|congruence].
+        unfold wn; cbn [set_props w_props]. rewrite lookup_bind_other by assumption. specialize (HE q Hi).
+        pose proof (V3 q) as Evq. unfold values in Evq. destruct (lookup (w_props w3) q); [discriminate|]. destruct (lookup (w_props w) q); [discriminate Evq|contradiction]. }
     destruct fuel as [|f]; [cbn [set_helper] in H; discriminate H|].
-    destruct (lazy_assignment fn rtl ev ev_pos f w7 p v w' SC7 (LCOH_of_LSND w7 Hinv7 SND7) H) as (A1 & A2 & _).
-    split; [exact A1|apply LSND_of_LCOH; exact A2].
+    destruct (lazy_assignment fn rtl ev ev_pos f w7 p v w' SC7 (LCOH_of_LSND w7 Hinv7 SND7) H) as (A1 & A2 & A3 & _).
+    split; [exact A1|]. split; [apply LSND_of_LCOH; exact A2|]. exact (LREG_REQ w7 w' (REQ_LFR w7 w' A3 (LFR_props_dom w7 w' A3)) REG7).
   Qed.
 
   (* ---- histories ---- *)
@@ -363,24 +451,65 @@ Section GrowLazy.
     - intros q. rewrite R2. unfold lz_of. rewrite P. destruct (lookup (w_props w) q) as [pr|]; [|reflexivity]. destruct (pr_updater pr) as [b|]; [|reflexivity]. rewrite G. reflexivity.
   Qed.
 
-  Theorem lazy_grow_step f w o w' :
-    LSC w -> LSND w -> grow_op_lazy w o -> step1 fn rtl (S f) w o = (w', None) -> LSC w' /\ LSND w'.
+  Lemma lchain_ext w w' : (forall q, lz_of w' q = lz_of w q) -> forall regs, lchain w regs -> lchain w' regs.
   Proof.
-    intros HSC HS Ho H. destruct o; cbn [grow_op_lazy] in Ho; try (exfalso; exact Ho).
-    - cbn [step1] in H. destruct (lookup (w_props w) p) eqn:Hp; [discriminate H|]. inversion H; subst. apply grow_new_lazy; assumption.
-    - eapply grow_set_lazy; eauto.
+    intros E. induction regs as [|q r IH]; cbn [lchain]; [auto|]. intros [HA HC]. split; [|auto]. intros x lf p Hx. rewrite E in Hx. eauto.
+  Qed.
+  Lemma regs_of_ext w w' l : (forall b, lz w' b = lz w b) -> regs_of w' l = regs_of w l.
+  Proof. intros E. unfold regs_of. apply flat_map_ext. intros rb. rewrite E. reflexivity. Qed.
+
+  Lemma REQ_same w w' :
+    w_evps w' = w_evps w -> w_binds w' = w_binds w -> (forall q, lz_of w' q = lz_of w q) ->
+    (forall q, lookup (w_props w) q <> None -> lookup (w_props w') q <> None) -> REQ w w'.
+  Proof.
+    intros E1 E2 E3 E4. split; [exact E1|]. split; [rewrite E2; reflexivity|]. split; [intros b; unfold lz, get_bind; rewrite E2; reflexivity|]. split; [|exact E4].
+    intros q x' Hx'. rewrite E3 in Hx'. eauto.
+  Qed.
+
+  Theorem lazy_grow_step f w o w' :
+    LSC w -> LSND w -> LREG w -> grow_op_lazy w o -> step1 fn rtl (S f) w o = (w', None) -> LSC w' /\ LSND w' /\ LREG w'.
+  Proof.
+    intros HSC HS HR Ho H. destruct o; cbn [grow_op_lazy] in Ho; try (exfalso; exact Ho).
+    - cbn [step1] in H. destruct (lookup (w_props w) p) eqn:Hp; [discriminate H|]. inversion H; subst.
+      destruct (grow_new_lazy w p v HSC HS Hp) as [A1 A2]. split; [exact A1|]. split; [exact A2|].
+      apply (LREG_REQ w); [|exact HR]. apply REQ_same; try reflexivity.
+      + intros q. unfold lz_of; cbn [set_props w_props]. rewrite lookup_bind. destruct (Nat.eqb_spec q p) as [->|]; [rewrite Hp; reflexivity|reflexivity].
+      + intros q Hq. cbn [set_props w_props]. rewrite lookup_bind. destruct (Nat.eqb q p); [discriminate|exact Hq].
+    - pose proof H as H'. cbn [step1] in H'. destruct (lookup (w_props w) p) as [pr|] eqn:Hp; [|discriminate H']. destruct (pr_updater pr) eqn:Hu; [discriminate H'|].
+      destruct (lazy_assignment fn rtl ev ev_pos f w p v w' HSC (LCOH_of_LSND w (proj1 HSC) HS) H') as (A1 & A2 & A3 & _).
+      split; [exact A1|]. split; [apply LSND_of_LCOH; exact A2|]. exact (LREG_REQ w w' (REQ_LFR w w' A3 (LFR_props_dom w w' A3)) HR).
     - cbn [step1] in H. destruct (lookup (w_props w) p); [|discriminate H]. inversion H; subst.
-      split; [eapply (LSC_views w); eauto; apply views_log|eapply (LSND_views w); eauto].
+      split; [eapply (LSC_views w); eauto; apply views_log|]. split; [eapply (LSND_views w); eauto|]. apply (LREG_REQ w); [|exact HR]. apply REQ_same; auto.
     - cbn [step1] in H. destruct (lookup (w_props w) p); [|discriminate H]. inversion H; subst.
-      split; [eapply (LSC_views w); eauto; apply views_log|eapply (LSND_views w); eauto].
-    - destruct act; [destruct Ho|]. eapply grow_observe_lazy; eauto.
+      split; [eapply (LSC_views w); eauto; apply views_log|]. split; [eapply (LSND_views w); eauto|]. apply (LREG_REQ w); [|exact HR]. apply REQ_same; auto.
+    - destruct act; [destruct Ho|]. destruct (grow_observe_lazy (S f) w p k label h w' HSC HS H) as [A1 A2]. split; [exact A1|]. split; [exact A2|].
+      cbn [step1] in H. destruct (match k with KMoved => true | _ => false end) eqn:Hk; [destruct k; discriminate|].
+      replace (match k, @None (bool * nat) with KMoved, _ => true | KDestroyed, Some _ => true | _, _ => false end) with false in H by (destruct k; reflexivity).
+      destruct (subscribe w p k (SObs label None)) as [[w1 hd]|] eqn:Hs; [|discriminate H]. inversion H; subst w'.
+      pose proof (subscribe_ext _ _ _ _ _ _ Hs (pi_twf _ _ _ _ _ _ _ (proj1 HSC)) (pi_own _ _ _ _ _ _ _ (proj1 HSC))) as E.
+      apply (LREG_REQ w); [|exact HR]. apply REQ_same.
+      + exact (se_evps _ _ _ _ _ _ E).
+      + exact (se_binds _ _ _ _ _ _ E).
+      + intros q. exact (sub_lz_of _ _ _ _ _ _ E q).
+      + intros q Hq Hn. apply Hq. assert (Pn : pview w1 q = None) by (unfold pview; cbn [set_obs w_props] in Hn; rewrite Hn; reflexivity).
+        apply (se_pdom _ _ _ _ _ _ E) in Pn. unfold pview in Pn. destruct (lookup (w_props w) q); [discriminate Pn|reflexivity].
     - destruct m; [destruct Ho|]. destruct Ho as [Hp He]. eapply grow_bind_lazy; eauto.
-    - cbn [step1] in H. destruct (lookup (w_bevs w) e); [discriminate H|]. inversion H; subst.
-      split; [eapply (LSC_views w); eauto; repeat split|eapply (LSND_views w); eauto].
+    - cbn [step1] in H. destruct (lookup (w_bevs w) e) eqn:Hb; [discriminate H|]. inversion H; subst.
+      split; [eapply (LSC_views w); eauto; repeat split|]. split; [eapply (LSND_views w); eauto|].
+      (* a new evaluator: its registry is empty *)
+      unfold LREG in *. cbn [set_bevs set_evps w_evps w_binds w_props].
+      destruct (Nat.lt_ge_cases ev (length (w_evps w))) as [Hlt|Hge].
+      + rewrite nth_error_app1 by exact Hlt. destruct (nth_error (w_evps w) ev) as [st|]; [|exact I]. destruct HR as (R1 & R2 & R3 & R4).
+        match goal with |- NoDup (regs_of ?W _) /\ _ => set (W' := W) end.
+        rewrite (regs_of_ext w W' (ep_registry st) (fun b => eq_refl)). split; [exact R1|]. split; [apply (lchain_ext w W' (fun q => eq_refl)); exact R2|]. split; [exact R3|exact R4].
+      + destruct (Nat.eq_dec ev (length (w_evps w))) as [E|Hne].
+        * rewrite nth_error_app2 by lia. rewrite E, Nat.sub_diag. cbn. split; [constructor|]. split; [exact I|]. split; [intros rb []|intros q []].
+        * replace (nth_error (w_evps w ++ [{| ep_registry := []; ep_next := 0 |}]) ev) with (@None evpriv); [exact I|]. symmetry. apply nth_error_None. rewrite app_length. cbn. lia.
     - cbn [step1] in H. destruct (lookup (w_bevs w) src), (lookup (w_bevs w) dst); try discriminate H. inversion H; subst.
-      split; [eapply (LSC_views w); eauto; repeat split|eapply (LSND_views w); eauto].
+      split; [eapply (LSC_views w); eauto; repeat split|]. split; [eapply (LSND_views w); eauto|]. apply (LREG_REQ w); [|exact HR]. apply REQ_same; auto.
     - pose proof H as H'. cbn [step1] in H'. rewrite Ho in H'. destruct (nth_error (w_evps w) ev) as [st|] eqn:Hst; [|discriminate H'].
-      eapply grow_evalall_lazy; eauto.
+      destruct (lazy_evalall_keeps fn rtl ev ev_pos (S f) w e st w' HSC (LCOH_of_LSND w (proj1 HSC) HS) Ho Hst H) as (A1 & A2 & A3).
+      split; [exact A1|]. split; [apply LSND_of_LCOH; exact A2|]. exact (LREG_REQ w w' (REQ_LFR w w' A3 (LFR_props_dom w w' A3)) HR).
   Qed.
 
   Fixpoint lazy_run_ok (f : nat) (w : world) (ops : list op) : Prop :=
@@ -398,28 +527,36 @@ Section GrowLazy.
   Proof.
     exists {| L.lenv := fun _ => 0%Z; L.ltr := fun _ => None |}. split; [split; [intros p pr E; discriminate E|intros q; reflexivity]|intros q t E; discriminate E].
   Qed.
-
-  Theorem lazy_grow_coherent f : forall ops w, LSC w -> LSND w -> lazy_run_ok f w ops ->
-    LSC (fold_left (step fn rtl (S f)) ops w) /\ LSND (fold_left (step fn rtl (S f)) ops w).
+  Lemma LREG_world0 : LREG world0.
   Proof.
-    induction ops as [|o r IH]; intros w HSC HS Hok; cbn [fold_left]; [auto|]. destruct Hok as (Ho & Hn & Hr).
-    unfold step in *. destruct (step1 fn rtl (S f) w o) as [w1 e] eqn:E. cbn [snd] in Hn. subst e.
-    destruct (lazy_grow_step f w o w1 HSC HS Ho E) as [SC1 S1].
-    apply IH; [|exact S1|exact Hr]. eapply (LSC_views w1); eauto. apply views_log.
+    unfold LREG. cbn [world0 w_evps]. destruct ev as [|[|n]]; cbn; [contradiction|exact I|exact I].
   Qed.
 
-  (* C06 end to end: after any such history, ONE evaluateAll over bindings registered in dependency order makes every registered
-     bound property equal to its expression recomputed from scratch *)
-  Theorem lazy_reachable_one_pass f ops e st w' :
+  Theorem lazy_grow_coherent f : forall ops w, LSC w -> LSND w -> LREG w -> lazy_run_ok f w ops ->
+    LSC (fold_left (step fn rtl (S f)) ops w) /\ LSND (fold_left (step fn rtl (S f)) ops w) /\ LREG (fold_left (step fn rtl (S f)) ops w).
+  Proof.
+    induction ops as [|o r IH]; intros w HSC HS HR Hok; cbn [fold_left]; [auto|]. destruct Hok as (Ho & Hn & Hr).
+    unfold step in *. destruct (step1 fn rtl (S f) w o) as [w1 e] eqn:E. cbn [snd] in Hn. subst e.
+    destruct (lazy_grow_step f w o w1 HSC HS HR Ho E) as (SC1 & S1 & R1).
+    apply IH; [| | |exact Hr].
+    - eapply (LSC_views w1); eauto. apply views_log.
+    - exact S1.
+    - apply (LREG_REQ w1); [|exact R1]. apply REQ_same; auto.
+  Qed.
+
+  (* C06 end to end: after any history of a growing network of evaluator-driven bindings, ONE evaluateAll makes every registered bound
+     property equal to its expression recomputed from scratch (in such a network registration order is dependency order) *)
+  Theorem lazy_reachable_one_pass f ops e w' :
     lazy_run_ok f world0 ops ->
     let w := run fn rtl (S f) ops in
-    lookup (w_bevs w) e = Some ev -> nth_error (w_evps w) ev = Some st ->
-    NoDup (regs_of w (ep_registry st)) -> lchain w (regs_of w (ep_registry st)) ->
+    lookup (w_bevs w) e = Some ev ->
     step1 fn rtl (S f) w (BevEvalAll e) = (w', None) ->
+    forall st, nth_error (w_evps w) ev = Some st ->
     forall q x pr z, In q (regs_of w (ep_registry st)) -> lz_of w' q = Some x -> lookup (w_props w') q = Some pr ->
       PropCheck.den_node fn (values w') (b_root x) = Some z -> pr_value pr = z.
   Proof.
-    intros Hok w He Hst ND HC H. destruct (lazy_grow_coherent f ops world0 LSC_world0 LSND_world0 Hok) as [HSC HS].
+    intros Hok w He H st Hst. destruct (lazy_grow_coherent f ops world0 LSC_world0 LSND_world0 LREG_world0 Hok) as (HSC & HS & HR).
+    change (LSC w) in HSC. change (LSND w) in HS. change (LREG w) in HR. unfold LREG in HR. rewrite Hst in HR. destruct HR as (ND & HC & _ & _).
     destruct (lazy_evalall_consistent fn rtl ev ev_pos (S f) w e st w' HSC (LCOH_of_LSND w (proj1 HSC) HS) He Hst ND HC H) as (_ & _ & R). exact R.
   Qed.
 End GrowLazy.
